@@ -23,6 +23,8 @@ type c11Case struct {
 	Termios string `json:"termios"` // initial termios variant
 	Editor  string `json:"editor"`
 	Back    int    `json:"back"`
+	// an earlier call on the same Shell, made on a cooked terminal, that returned normally
+	Prior string `json:"prior,omitempty"` // "" | accept | interrupt | eof
 }
 
 var c11Exits = []string{"accept-line", "accept-and-hold", "multiline-accept", "operate-and-get-next", "interrupt", "interrupt-in-menu", "interrupt-in-isearch",
@@ -37,7 +39,10 @@ func c11Gen(r *rand.Rand, tier string, idx int) any {
 		c.Mode = "vi"
 	}
 	c.Exit = c11Exits[idx%len(c11Exits)]
-	c.Termios = pick(r, []string{"cooked", "echo-off", "ixon-off", "odd-vmin-vtime", "cooked"})
+	c.Termios = pick(r, []string{"cooked", "echo-off", "ixon-off", "odd-vmin-vtime", "cooked", "cbreak", "raw-like"})
+	if r.Intn(3) == 0 {
+		c.Prior = pick(r, []string{"accept", "accept", "interrupt", "eof"})
+	}
 	c.Inputrc = "set history-autosuggest off\n"
 	if r.Intn(4) == 0 {
 		c.Inputrc += "set show-mode-in-prompt on\n"
@@ -86,6 +91,12 @@ func c11Termios(t *sess.Term, variant string) {
 		tio.Iflag &^= unix.IXON
 	case "odd-vmin-vtime":
 		tio.Cc[unix.VMIN], tio.Cc[unix.VTIME] = 3, 7
+	case "cbreak":
+		// an application's own no-echo, character-at-a-time mode
+		tio.Lflag &^= unix.ICANON | unix.ECHO
+	case "raw-like":
+		tio.Lflag &^= unix.ICANON | unix.ECHO | unix.ISIG | unix.IEXTEN
+		tio.Iflag &^= unix.ICRNL | unix.IXON
 	}
 	t.SetTermios(&tio)
 }
@@ -110,9 +121,32 @@ func c11Run(env *fw.Env, raw json.RawMessage) fw.Outcome {
 			s.Sh.Config.Bind(km, "\x18\x05", "edit-and-execute-command", false)
 		}
 	}
-	c11Termios(env.T, c.Termios)
 	s := sess.New(env.T, env.Scratch, cfg)
 	defer s.Close()
+	if c.Prior != "" {
+		// an earlier call of the same Shell, on a cooked terminal
+		c11Termios(env.T, "cooked")
+		var pexit []sess.Step
+		switch c.Prior {
+		case "accept":
+			pexit = steps("\r")
+		case "interrupt":
+			pexit = steps("\x03")
+		default:
+			pexit = steps("\x04")
+		}
+		pplan := steps("earlier")
+		if c.Prior == "eof" {
+			pplan = nil
+		}
+		pres := s.Call(pplan, pexit)
+		if !pres.Returned {
+			o.Inc("the earlier call did not return")
+			return o.O
+		}
+		env.T.Reset(c.W, c.H)
+	}
+	c11Termios(env.T, c.Termios)
 	var plan []sess.Step
 	add := func(w, tag string) { plan = append(plan, sess.Step{W: w, Tag: tag}) }
 	if c.Buf != "" {
@@ -177,7 +211,7 @@ func c11Run(env *fw.Env, raw json.RawMessage) fw.Outcome {
 		exit = []sess.Step{{EIO: true}}
 	}
 	res := s.Call(plan, exit)
-	ctx := fmt.Sprintf("exit=%s where=%s termios=%s buffer=%q back=%d W=%d", c.Exit, c.Where, c.Termios, clampStr(c.Buf, 40), c.Back, c.W)
+	ctx := fmt.Sprintf("exit=%s where=%s termios=%s earlier-call=%q buffer=%q back=%d W=%d", c.Exit, c.Where, c.Termios, c.Prior, clampStr(c.Buf, 40), c.Back, c.W)
 	o.O.Events++
 	panicked := res.Panic != "" && strings.Contains(res.Panic, "verif: bound command panics")
 	if !panicked && !stdFailures(&o, res, ctx) {
@@ -206,7 +240,11 @@ func c11Run(env *fw.Env, raw json.RawMessage) fw.Outcome {
 	case c.Buf != "":
 		shape = "short"
 	}
-	o.Cover(fmt.Sprintf("%s|%s|%s|%s", c.Exit, c.Where, shape, c.Termios))
+	prior := "first-call"
+	if c.Prior != "" {
+		prior = "after-an-earlier-call"
+	}
+	o.Cover(fmt.Sprintf("%s|%s|%s|%s|%s", c.Exit, c.Where, shape, c.Termios, prior))
 	// (1) terminal modes
 	if res.TioBefore != res.TioAfter {
 		o.Viol("terminal-modes-not-restored|"+how, ctx+fmt.Sprintf(" before=%+v after=%+v", res.TioBefore, res.TioAfter))
@@ -244,8 +282,8 @@ func init() {
 		ID:        "C11",
 		Level:     "exploration",
 		NeedsTerm: true,
-		Rule: "15 exit paths (accept-line, accept-and-hold, multi-line accept, operate-and-get-next, C-c plain / in an open completion menu / in incremental search, C-d on an empty line, insert-comment, edit-and-execute-command with a succeeding / failing / missing editor, a user-registered command that panics, stdin EOF, stdin EIO) x {emacs, vi-insert, vi-command, visual} x 7 buffer shapes (empty, short, wrapped, exactly filling the row, two lines, cursor in the middle, menu/hint) x 4 initial termios variants; monitors after the call returned or the panic unwound: TCGETS struct equality with the value before the call, last DECSCUSR parameter == 0, emulator cursor in column 0 on a blank row below every row that holds text. " +
-			"distinct non-trivial = distinct (exit path, mode, buffer shape, termios variant) tuples; exit paths are enumerated round-robin so every tier covers all 15",
+		Rule: "15 exit paths (accept-line, accept-and-hold, multi-line accept, operate-and-get-next, C-c plain / in an open completion menu / in incremental search, C-d on an empty line, insert-comment, edit-and-execute-command with a succeeding / failing / missing editor, a user-registered command that panics, stdin EOF, stdin EIO) x {emacs, vi-insert, vi-command, visual} x 7 buffer shapes (empty, short, wrapped, exactly filling the row, two lines, cursor in the middle, menu/hint) x 6 initial termios variants (cooked, echo off, ixon off, odd VMIN/VTIME, an application's cbreak mode with ICANON and ECHO off, a raw-like mode), one case in three after an earlier call on the same Shell that returned normally (accept / C-c / C-d) on a cooked terminal; monitors after the call returned or the panic unwound: TCGETS struct equality with the value before the call, last DECSCUSR parameter == 0, emulator cursor in column 0 on a blank row below every row that holds text. " +
+			"distinct non-trivial = distinct (exit path, mode, buffer shape, termios variant, first or later call) tuples; exit paths are enumerated round-robin so every tier covers all 15",
 		Assumptions: []string{"prompt-transient off", "buffers are plain ASCII (wide characters at the margin and wrapped multi-line buffers are C04's known classes)"},
 		N: func(tier string) int {
 			if tier == "thorough" {
